@@ -357,6 +357,14 @@ def family_E_modules(n):
         ("E/library_syntax_error", {"bad": badlib, "": HDR + "from library import bad\nbad.init()\ndb.Setting = %d\n" % n}),
         ("E/library_error_far_line", {"lib": HDR + "\n" * 40 + "def init():\n    return nothing_defined_%d\n" % n,
                                        "": HDR + "from library import lib\ndb.Setting = lib.init()\n"}),
+        # user mistakes that sit in a library, on a line number beyond the end of the (short) main module
+        ("E/library_class_far", {"lib": HDR + "\n" * 30 + "def init():\n    db.Setting = %d\n\nclass A:\n    x = 1\n" % n, "": HDR + "from library import lib\nlib.init()\n"}),
+        ("E/library_return_far", {"lib": HDR + "\n" * 25 + "def init():\n    db.Setting = %d\n\nreturn 5\n" % n, "": HDR + "from library import lib\nlib.init()\n"}),
+        ("E/library_decorator_far", {"lib": HDR + "\n" * 20 + "def init():\n    db.Setting = %d\n\n@staticmethod\ndef other():\n    pass\n" % n, "": HDR + "from library import lib\nlib.init()\nlib.other()\n"}),
+        ("E/library_bad_attr_far", {"lib": HDR + "\n" * 35 + "def init():\n    db.NoSuchLogicTypeAtAll = %d\n" % n, "": HDR + "from library import lib\nlib.init()\n"}),
+        ("E/library_reassign_far", {"lib": HDR + "\n" * 22 + "def init():\n    p = SolarPanel(d1)\n    p = SolarPanel(d2)\n    p.Horizontal = %d\n" % n, "": HDR + "from library import lib\nlib.init()\n"}),
+        ("E/library_undefined_call_far", {"lib": HDR + "\n" * 28 + "def init():\n    db.Setting = nofunc(%d)\n" % n, "": HDR + "from library import lib\nlib.init()\n"}),
+        ("E/library_break_far", {"lib": HDR + "\n" * 18 + "def init():\n    db.Setting = %d\n\nbreak\n" % n, "": HDR + "from library import lib\nlib.init()\n"}),
         ("E/library_unused", {"lib": HDR + "def init():\n    db.Setting = %d\n" % n, "": HDR + "db.Setting = 1\n"}),
         ("E/library_named_main", {"__main__": HDR + "x = %d\n" % n, "": HDR + "db.Setting = 2\n"}),
         ("E/library_weird_name", {"a b-c": HDR + "x = 1\n", "": HDR + "db.Setting = %d\n" % n}),
